@@ -2004,7 +2004,7 @@ def check_C13(work, tier, seed):
         lines0 += conform(work, b0, "C13", seed, scc.text(), out, tag="-nohook-cpus")
     # builds in which a back end is NOT compiled in although the CPU supports it: the selection must
     # stop at what is compiled in (and the objects must work)
-    for name, v128, v256 in (("no256", 1, 0), ("noSIMD", 0, 0)):
+    for name, v128, v256 in (("no256", 1, 0), ("no128", 0, 1), ("noSIMD", 0, 0)):
         bx = build(work, name=name, defs=["SKINNY_VERIF_VEC128_MATH=%d" % v128, "SKINNY_VERIF_VEC256_MATH=%d" % v256],
                    built128=v128, built256=v256)
         scx = Sc(seed + 3)
